@@ -508,4 +508,80 @@ theorem streamOf_append {σ β : Type} (step : σ → β × σ) (m n : Nat) (s :
     simp only [streamOf, advance, List.cons_append]
     rw [ih]
 
+/-! ### the repaired variant (`fix = true`): shift by the largest logit first -/
+
+theorem afterTopK_fix (o : Ops α) (P : Params α) (r : α) (L : List (Tok α)) (t : Tok α)
+    (hres : afterTopK o true P r L = .ok t) :
+    ∃ L1, shiftMax o L = .ok L1 ∧ afterTopK o false P r L1 = .ok t := by
+  unfold afterTopK at hres
+  simp only [if_true, bind, Except.bind] at hres
+  cases hs : shiftMax o L with
+  | error e => rw [hs] at hres; cases hres
+  | ok L1 =>
+    rw [hs] at hres
+    refine ⟨L1, rfl, ?_⟩
+    unfold afterTopK
+    simpa only [Bool.false_eq_true, if_false, bind, Except.bind, pure, Except.pure] using hres
+
+/-- the shift keeps ids and positions -/
+theorem shiftMax_get (o : Ops α) (L L1 : List (Tok α)) (hs : shiftMax o L = .ok L1)
+    (i : Nat) (y1 : Tok α) (h1 : L1[i]? = some y1) :
+    ∃ y, L[i]? = some y ∧ y.id = y1.id := by
+  cases L with
+  | nil =>
+    simp only [shiftMax] at hs
+    injection hs with hs; subst hs; simp at h1
+  | cons t0 rest =>
+    simp only [shiftMax] at hs
+    split at hs
+    · cases hs
+    · injection hs with hs
+      subst hs
+      rw [List.getElem?_map] at h1
+      cases hy : (t0 :: rest)[i]? with
+      | none => simp [hy] at h1
+      | some y =>
+        simp only [hy, Option.map_some, Option.some.injEq] at h1
+        exact ⟨y, rfl, by rw [← h1]⟩
+
+theorem afterTopK_id_any (o : Ops α) (fix : Bool) (P : Params α) (r : α) (L : List (Tok α)) (t : Tok α)
+    (hres : afterTopK o fix P r L = .ok t) : ∃ y ∈ L, y.id = t.id := by
+  cases fix with
+  | false => exact afterTopK_id o P r L t hres
+  | true =>
+    obtain ⟨L1, hs, h1⟩ := afterTopK_fix o P r L t hres
+    obtain ⟨y1, hy1, hid⟩ := afterTopK_id o P r L1 t h1
+    obtain ⟨i, hi⟩ := List.getElem?_of_mem hy1
+    obtain ⟨y, hy, hyid⟩ := shiftMax_get o L L1 hs i y1 hi
+    exact ⟨y, List.mem_of_getElem? hy, by rw [hyid, hid]⟩
+
+/-- **everything after topK, repaired variant.**  Contracts are those of the run on the shifted
+    list `L1`, plus the shift's own (`scaleOK` on (L, L1): still descending, `-Inf ↦ -Inf`). -/
+theorem afterTopK_spec_fix {o : Ops α} (h : OrdLaws o) (hz : AddZeroLaw o) (hb : BeqLaw o)
+    (P : Params α) (r : α) (L : List (Tok α)) (t : Tok α)
+    (hres : afterTopK o true P r L = .ok t) :
+    ∃ L1, shiftMax o L = .ok L1 ∧
+    (guardOK o (scaledOf o P L1) = true →
+     scaleOK o (L.map (·.val)) (L1.map (·.val)) = true →
+     scaleOK o (L1.map (·.val)) (scaledOf o P L1) = true →
+     softmaxOK o (scaledOf o P L1) (softmaxVals o (scaledOf o P L1)) = true →
+     ∃ (idx : Nat) (y : Tok α) (f : List (Tok α)) (x : Tok α),
+      L[idx]? = some y ∧ y.id = t.id ∧ o.beq y.val o.negInf = false ∧
+      minP o P.minP (topP o P.topP (probsOf o P L1)) = .ok f ∧ f <+: probsOf o P L1 ∧
+      f[idx]? = some x ∧ x.id = t.id) := by
+  obtain ⟨L1, hs, h1⟩ := afterTopK_fix o P r L t hres
+  refine ⟨L1, hs, ?_⟩
+  intro hg hsh hsc hsm
+  obtain ⟨idx, y1, f, x, hy1, hy1id, hy1v, hf, hpre, hx, hxid⟩ :=
+    afterTopK_spec h hz hb P r L1 t h1 hg hsc hsm
+  obtain ⟨y, hy, hyid⟩ := shiftMax_get o L L1 hs idx y1 hy1
+  refine ⟨idx, y, f, x, hy, by rw [hyid, hy1id], ?_, hf, hpre, hx, hxid⟩
+  unfold scaleOK at hsh
+  simp only [Bool.and_eq_true] at hsh
+  have ha : (L.map (·.val))[idx]? = some y.val := by simp [hy]
+  have hb' : (L1.map (·.val))[idx]? = some y1.val := by simp [hy1]
+  have := zip_all_get _ _ _ idx y.val y1.val hsh.2 ha hb'
+  rw [hy1v] at this
+  simpa using this
+
 end OllamaVerif.Sampler
